@@ -248,6 +248,11 @@ def run_check(engine, tier='quick', seed=0, workers=None, digest_only=None, scal
     for _, (k, n) in sorted(known_hit.items()):
         print('KNOWN-FINDING: property=%s %s [%s %s; seen %d times in this run]' % (
             engine.property_id, k['what'], k['class'], k['key'], n))
+    for k in known:
+        # every listed open finding of this property is named on every run, reached or not
+        if k.get('status') == 'open' and k['property'] == engine.property_id and k['key'] not in known_hit:
+            print('KNOWN-FINDING: property=%s %s [%s %s; not reached in this run]' % (
+                engine.property_id, k['what'], k['class'], k['key']))
 
     exit_code = 0
     reported = []
